@@ -78,8 +78,8 @@ theorem next_mono (s : St) (o : Op) : s.next ≤ (step s o).1.next := by
   | finish => simp only [step, finish]; (repeat' split) <;> simp
   | tryEnd => simp only [step, tryEnd]; (repeat' split) <;> simp
   | applyPlan p => simp [step]
-  | verifyBegin => simp [step]
-  | verdict m c => simp only [step]; split <;> simp
+  | verifyBegin => simp only [step]; split <;> simp
+  | verdict m c => simp only [step]; (repeat' split) <;> simp
 
 theorem take_some_normal {s : St} {i : Nat} (hr : s.resendPending = false) (h : (take s).2 = some i) :
     s.next ≤ i ∧ (take s).1.next = i + 1 ∧ i < s.total ∧ skip s.plan i = false := by
@@ -183,17 +183,19 @@ theorem C17_resend_once (s : St) (ops : List Op) :
       simp only [resendTakes, hm]; rw [hr] at h; exact h
     | verifyBegin =>
       have hm : mismatches (.verifyBegin :: os) = mismatches os := rfl
-      have hr : (step s .verifyBegin).1.resendPending = s.resendPending := rfl
+      have hr : (step s .verifyBegin).1.resendPending = s.resendPending := by simp only [step]; split <;> rfl
       simp only [resendTakes, hm]; rw [hr] at h; exact h
     | verdict m c =>
       cases m with
       | true =>
         have hm : mismatches (.verdict true c :: os) = 1 + mismatches os := rfl
-        have hr : (step s (.verdict true c)).1.resendPending = true := rfl
-        simp only [resendTakes, hm]; rw [hr] at h; simp at h; split <;> omega
+        simp only [resendTakes, hm]
+        have hx : (if (step s (.verdict true c)).1.resendPending = true then 1 else 0 : Nat) ≤ 1 := by split <;> omega
+        omega
       | false =>
         have hm : mismatches (.verdict false c :: os) = mismatches os := rfl
-        have hr : (step s (.verdict false c)).1.resendPending = s.resendPending := rfl
+        have hr : (step s (.verdict false c)).1.resendPending = s.resendPending := by
+          simp only [step]; split <;> simp
         simp only [resendTakes, hm]; rw [hr] at h; exact h
 
 /-- `scheduleDone` means the cursor has passed every chunk -/
@@ -220,8 +222,8 @@ theorem inv_step (s : St) (o : Op) (h : Inv s) : Inv (step s o).1 ∧ (step s o)
   | finish => simp only [step, finish]; split <;> exact ⟨h, rfl⟩
   | tryEnd => simp only [step, tryEnd]; split <;> exact ⟨h, rfl⟩
   | applyPlan p => exact ⟨h, rfl⟩
-  | verifyBegin => exact ⟨h, rfl⟩
-  | verdict m c => simp only [step]; split <;> exact ⟨h, rfl⟩
+  | verifyBegin => simp only [step]; split <;> exact ⟨h, rfl⟩
+  | verdict m c => simp only [step]; (repeat' split) <;> exact ⟨h, rfl⟩
 
 theorem inv_final (s : St) (ops : List Op) (h : Inv s) : Inv (final s ops) := by
   induction ops generalizing s with
@@ -257,8 +259,8 @@ theorem C17_end_conditions (s : St) (o : Op) (hi : Inv s) (h : (step s o).2 = .f
       exact ⟨h4, hinv h3, h1, h2, by first | rfl | trivial, h5⟩
     · cases h
   | applyPlan p => simp [step] at h
-  | verifyBegin => simp [step] at h
-  | verdict m c => simp [step] at h
+  | verifyBegin => simp only [step] at h; split at h <;> simp at h
+  | verdict m c => simp only [step] at h; split at h <;> simp at h
 
 theorem endSent_mono (s : St) (o : Op) (h : s.endSent = true) : (step s o).1.endSent = true := by
   cases o with
@@ -266,8 +268,8 @@ theorem endSent_mono (s : St) (o : Op) (h : s.endSent = true) : (step s o).1.end
   | finish => simp only [step, finish]; split <;> simp [h]
   | tryEnd => simp only [step, tryEnd]; split <;> simp [h]
   | applyPlan p => simp [step, h]
-  | verifyBegin => simp [step, h]
-  | verdict m c => simp only [step]; split <;> simp [h]
+  | verifyBegin => simp only [step]; split <;> simp [h]
+  | verdict m c => simp only [step]; (repeat' split) <;> simp [h]
 
 def ends : List Out → Nat
   | [] => 0
@@ -284,8 +286,8 @@ theorem no_end_after_end (s : St) (ops : List Op) (h : s.endSent = true) : ends 
       | finish => simp [step, finish, canEnd, h]
       | tryEnd => simp [step, tryEnd, canEnd, h]
       | applyPlan p => simp [step]
-      | verifyBegin => simp [step]
-      | verdict m c => simp [step]
+      | verifyBegin => simp only [step]; split <;> simp
+      | verdict m c => simp only [step]; split <;> simp
     simp only [run]
     have := ih _ (endSent_mono s o h)
     generalize (step s o).2 = out at hne
@@ -304,18 +306,101 @@ theorem C17_end_once (s : St) (ops : List Op) : ends (run s ops) ≤ 1 := by
         | finish => simp only [step, finish] at he ⊢; split at he <;> simp_all
         | tryEnd => simp only [step, tryEnd] at he ⊢; split at he <;> simp_all
         | applyPlan p => simp [step] at he
-        | verifyBegin => simp [step] at he
-        | verdict m c => simp [step] at he
+        | verifyBegin => simp only [step] at he; split at he <;> simp at he
+        | verdict m c => simp only [step] at he; split at he <;> simp at he
       rw [he]; simp [ends, no_end_after_end _ os hs]
     · have := ih (step s o).1
       generalize (step s o).2 = out at he
       cases out <;> simp_all [ends]
 
-/-- **C17_last.** Once the schedule is done and no re-send is pending, no take succeeds: after the end
-    record only a *later* mismatch verdict (a resume report that arrived after the end) can hand out a chunk. -/
+/-- **C17_last.** Once the schedule is done and no re-send is pending, no take succeeds (and after the end record
+    no verification can start any more: `C17_nothing_after_end`). -/
 theorem C17_last (s : St) (h1 : s.scheduleDone = true) (h2 : s.resendPending = false) :
     (step s .take).2 = .none ∧ (step s .take).1 = s := by
   simp [step, take, h1, h2]
+
+/-! ### nothing follows the end record -/
+
+/-- the file is closed for dispatch: the end record is out, the cursor is past every chunk, nothing is being verified or owed -/
+def Closed (s : St) : Prop :=
+  s.endSent = true ∧ s.scheduleDone = true ∧ s.verifyPending = false ∧ s.resendPending = false
+
+theorem closed_step (s : St) (o : Op) (h : Closed s) : Closed (step s o).1 ∧ ∀ i, (step s o).2 ≠ .chunk i := by
+  obtain ⟨h1, h2, h3, h4⟩ := h
+  cases o with
+  | take => simp [step, take, Closed, h1, h2, h3, h4]
+  | finish => simp [step, finish, canEnd, Closed, h1, h2, h3, h4]
+  | tryEnd => simp [step, tryEnd, canEnd, Closed, h1, h2, h3, h4]
+  | applyPlan p => simp [step, Closed, h1, h2, h3, h4]
+  | verifyBegin => simp [step, Closed, h1, h2, h3, h4]
+  | verdict m c => simp [step, Closed, h1, h2, h3, h4]
+
+theorem end_closes (s : St) (o : Op) (h : (step s o).2 = .fileEnd) : Closed (step s o).1 := by
+  cases o with
+  | take => simp only [step] at h; split at h <;> cases h
+  | finish =>
+    simp only [step, finish] at h ⊢
+    split at h
+    · rename_i hc
+      simp only [hc, if_true]
+      simp only [canEnd, Bool.and_eq_true, Bool.not_eq_true', beq_iff_eq] at hc
+      obtain ⟨⟨⟨⟨a, b⟩, c⟩, _⟩, _⟩ := hc
+      exact ⟨rfl, c, a, b⟩
+    · cases h
+  | tryEnd =>
+    simp only [step, tryEnd] at h ⊢
+    split at h
+    · rename_i hc
+      simp only [hc, if_true]
+      simp only [canEnd, Bool.and_eq_true, Bool.not_eq_true', beq_iff_eq] at hc
+      obtain ⟨⟨⟨⟨a, b⟩, c⟩, _⟩, _⟩ := hc
+      exact ⟨rfl, c, a, b⟩
+    · cases h
+  | applyPlan p => simp [step] at h
+  | verifyBegin => simp only [step] at h; split at h <;> simp at h
+  | verdict m c => simp only [step] at h; split at h <;> simp at h
+
+theorem closed_final (s : St) (ops : List Op) (h : Closed s) : Closed (final s ops) := by
+  induction ops generalizing s with
+  | nil => exact h
+  | cons o os ih => exact ih _ (closed_step s o h).1
+
+theorem closed_run (s : St) (ops : List Op) (h : Closed s) : ∀ i, Out.chunk i ∉ run s ops := by
+  induction ops generalizing s with
+  | nil => intro i hi; simp [run] at hi
+  | cons o os ih =>
+    intro i hi
+    simp only [run, List.mem_cons] at hi
+    rcases hi with hi | hi
+    · exact (closed_step s o h).2 i hi.symm
+    · exact ih _ (closed_step s o h).1 i hi
+
+theorem closed_after_end (s : St) (ops : List Op) (h : Out.fileEnd ∈ run s ops) : Closed (final s ops) := by
+  induction ops generalizing s with
+  | nil => simp [run] at h
+  | cons o os ih =>
+    simp only [run, List.mem_cons] at h
+    simp only [final]
+    rcases h with h | h
+    · exact closed_final _ os (end_closes s o h.symm)
+    · exact ih _ h
+
+/-- **C17_nothing_after_end.** Once the end-of-file record has been emitted, no chunk is handed out any more, whatever happens
+    afterwards - in particular a resume report that arrives only then starts no verification and causes no re-send (everything
+    was sent, without a plan). Together with `C17_end_conditions`: the end record is the last thing dispatched for the file. -/
+theorem C17_nothing_after_end (s : St) (before after : List Op) (h : Out.fileEnd ∈ run s before) :
+    ∀ i, Out.chunk i ∉ run (final s before) after :=
+  closed_run _ after (closed_after_end s before h)
+
+/-- premises satisfiable: one chunk, sent and ended; the late report (`verifyBegin`) is declined, a verdict has nobody to wake -/
+example : run (init 1) [.take, .finish, .verifyBegin, .verdict true 0, .take] =
+    [.chunk 0, .fileEnd, .declined, .declined, .none] := by decide
+
+/-- the machine as it was: a report arriving after the end record started a verification, and its mismatch verdict handed the
+    chunk out again *after* the end record -/
+theorem C17_nothing_after_end_refuted_before_fix :
+    runOld (init 1) [.take, .finish, .verifyBegin, .verdict true 0, .take] =
+      [.chunk 0, .fileEnd, .nothing, .nothing, .chunk 0] := by decide
 
 /-- **C17_end_emitted.** A complete run does emit the record: with everything finished, verification
     decided and no re-send pending, the next finish/try-end emits it. -/
@@ -360,6 +445,11 @@ theorem C17_source_shapes :
       "s.plan != nil && s.plan.bitmap != nil && s.plan.bitmap.Get(int(idx)) && idx < s.plan.forceSendFrom",
       "s.nextChunk >= s.totalChunks"] ∧
     sendfile_mark_done = ["s.inFlight > 0", "s.verifyPending || s.resendPending", "s.scheduleDone && s.inFlight == 0 && !s.endSent"] ∧
-    sendfile_try_end = ["s.verifyPending || s.resendPending", "s.scheduleDone && s.inFlight == 0 && !s.endSent"] := by decide
+    sendfile_try_end = ["s.verifyPending || s.resendPending", "s.scheduleDone && s.inFlight == 0 && !s.endSent"] ∧
+    -- `verifyBegin`: one locked region that declines after the end record; it is the only place that sets `verifyPending`, and the
+    -- verification goroutine (`verdict`) is started only when it accepted
+    sendfile_begin_verify = ["s.mu.Lock()", "defer s.mu.Unlock()", "if s.endSent { return false }", "s.verifyPending = true", "return true"] ∧
+    send_begin_verify_call = ["totalChunks > 0 && len(info.Bitmap) > 0 ; verifyNeeded && state.beginVerify()"] ∧
+    send_verify_pending_sets = ["false", "false"] := by decide
 
 end TV.C17
